@@ -1,58 +1,24 @@
 /* Contracts used by the C19 (Bulletproofs++ norm argument / generators / scratch) units and by the
  * C07 "misc" parser units.  Select with #define BP_<NAME> before the include.
  *
- *  ASSUMED oracles (algebraic residue; frame + representation invariant of outputs + return in
+ *  ASSUMED oracles (algebraic residue; frame + representation invariant of inputs/outputs + return in
  *  {0,1} + optional ghost log; no algebraic fact):
- *     secp256k1_ge_set_xquad, secp256k1_ge_set_xo_var, secp256k1_fe_is_square_var,
- *     secp256k1_eckey_pubkey_parse (with argument/verdict log), secp256k1_gej_eq_var,
- *     secp256k1_scalar_mul / _sqr / _inverse_var in the "frame only" form used under loop contracts
- *     (BP_SCALAR_FRAME: no representation precondition, see harness/C19/verify.c for why),
- *     secp256k1_ecmult_multi_var: replaced by a MODEL WITH A BODY (it takes a callback), see
- *     harness/C19/verify.c.
+ *     secp256k1_ge_set_xquad, secp256k1_ge_set_xo_var, secp256k1_fe_impl_is_square_var,
+ *     secp256k1_ge_is_valid_var, secp256k1_ge_x_on_curve_var, secp256k1_scalar_sqr,
+ *     secp256k1_eckey_pubkey_parse (argument bytes / size / verdict log), secp256k1_gej_eq_var (verdict log),
+ *     secp256k1_ellswift_swiftec_var, secp256k1_ellswift_xswiftec_frac_var, secp256k1_ecmult_const_xonly.
+ *     (secp256k1_ecmult_multi_var and secp256k1_scratch_alloc are replaced by MODELS WITH A BODY in
+ *     harness/C19/verify.c; the reasons are given there.)
  *  Contracts PROVED by a unit of these properties and re-used as call-site abstraction:
- *     secp256k1_generator_parse        (C07.generator_parse)
+ *     secp256k1_generator_parse        (C07.generator_parse, non-NULL arguments)
  *     secp256k1_generator_serialize    (C19.generator_serialize: frame, returns 1; C08 owns the codec)
  *     secp256k1_generator_save / _load (C19.generator_save / C19.generator_load: frames)
- *  libc: memset with symbolic length replaced by a contract (BP_MEMSET), like memcpy in DESIGN 2.4
+ *  libc: memset with a symbolic length replaced by a contract (BP_MEMSET), like memcpy in DESIGN 2.4.
  */
 #ifndef VERIF_ASSUMED_BPPP_H
 #define VERIF_ASSUMED_BPPP_H
 
-#ifdef BP_SCALAR_FRAME
-/* "Frame only" scalar oracles for C19.verify_gate.  The s_g / s_h loops of the norm-argument verifier
- * read an EARLIER element of the array they fill (s_g[i - 2^log i]); under a loop contract that element
- * is havocked, and "every earlier element is < n" cannot be carried without a quantified invariant
- * (not used in this framework).  The unit therefore uses oracles WITHOUT the representation
- * precondition scalar_ok(a), scalar_ok(b): the assumption is that the real secp256k1_scalar_mul / _sqr /
- * _inverse_var are memory-safe for every limb pattern (they are straight-line uint64/uint128
- * arithmetic; C05 scalar units).  Every pointer handed to them is still checked (r_ok / w_ok in the
- * requires clause = the index-safety obligations of the loops).  The representation flow (every
- * operand really is < n) is checked by the bounded unit C19.verify_b8, which uses the standard
- * contracts of assumed.h.  This block replaces assumed.h (same helper names). */
-# include "pre.h"
-# define VERIF_ASSUMED_H
-# define FE_EQ(x, y) ((x).n[0] == (y).n[0] && (x).n[1] == (y).n[1] && (x).n[2] == (y).n[2] && (x).n[3] == (y).n[3] && (x).n[4] == (y).n[4])
-# define FE_EQ_OLD(x, y) ((x).n[0] == __CPROVER_old((y).n[0]) && (x).n[1] == __CPROVER_old((y).n[1]) && (x).n[2] == __CPROVER_old((y).n[2]) && (x).n[3] == __CPROVER_old((y).n[3]) && (x).n[4] == __CPROVER_old((y).n[4]))
-static inline int ge_ok(const secp256k1_ge *g) { return fe_mag(&g->x, 4) && fe_mag(&g->y, 3) && (g->infinity == 0 || g->infinity == 1); }
-static inline int ge_ok1(const secp256k1_ge *g) { return fe_mag(&g->x, 1) && fe_mag(&g->y, 1) && (g->infinity == 0 || g->infinity == 1); }
-static inline int gej_ok(const secp256k1_gej *g) { return fe_mag(&g->x, 4) && fe_mag(&g->y, 4) && fe_mag(&g->z, 1) && (g->infinity == 0 || g->infinity == 1); }
-static void secp256k1_scalar_mul(secp256k1_scalar *r, const secp256k1_scalar *a, const secp256k1_scalar *b)
-__CPROVER_requires(__CPROVER_w_ok(r, sizeof(*r)) && __CPROVER_r_ok(a, sizeof(*a)) && __CPROVER_r_ok(b, sizeof(*b)))
-__CPROVER_assigns(*r)
-__CPROVER_ensures(scalar_ok(r))
-;
-static void secp256k1_scalar_sqr(secp256k1_scalar *r, const secp256k1_scalar *a)
-__CPROVER_requires(__CPROVER_w_ok(r, sizeof(*r)) && __CPROVER_r_ok(a, sizeof(*a)))
-__CPROVER_assigns(*r)
-__CPROVER_ensures(scalar_ok(r))
-;
-static void secp256k1_scalar_inverse_var(secp256k1_scalar *r, const secp256k1_scalar *x)
-__CPROVER_requires(__CPROVER_w_ok(r, sizeof(*r)) && __CPROVER_r_ok(x, sizeof(*x)))
-__CPROVER_assigns(*r)
-__CPROVER_ensures(scalar_ok(r))
-;
-#else
-# include "assumed.h"
+#include "assumed.h"
 /* squaring is not in assumed.h: same oracle shape as secp256k1_scalar_mul there */
 # ifdef BP_SCALAR_SQR
 static void secp256k1_scalar_sqr(secp256k1_scalar *r, const secp256k1_scalar *a)
@@ -61,7 +27,6 @@ __CPROVER_assigns(*r)
 __CPROVER_ensures(scalar_ok(r))
 ;
 # endif
-#endif
 
 /* ---- memset with a symbolic length (scratch_alloc, generators_serialize): CBMC's built-in model costs
  * minutes on a symbolic-size object; replaced by a contract in the style of the memcpy contract of
@@ -74,26 +39,6 @@ __CPROVER_requires(n == 0 || __CPROVER_w_ok(s, n))
 __CPROVER_assigns(__CPROVER_object_upto(s, n))
 __CPROVER_ensures(__CPROVER_return_value == s)
 __CPROVER_ensures(g_ms_idx < n ==> ((unsigned char *)s)[g_ms_idx] == (unsigned char)c)
-;
-#endif
-
-/* ---- scratch allocation, ABSTRACT form used by C19.verify_*: a successful allocation is a FRESH object
- * of the rounded size instead of a sub-range of the scratch data block.  Justification: C19.scratch_alloc
- * / C19.scratch_checkpoint prove on the real body that the block is [data+old mark, +rounded size), inside
- * the data block, disjoint from every earlier live block, that success happens exactly under the
- * condition below and that the mark moves by the rounded size.  Separate objects are STRICTER for
- * the caller (an access running from one block into the next is an out-of-bounds error here, while it
- * would stay inside the data block in the concrete layout).  Requires a genuine scratch space. ---- */
-#ifdef BP_SCRATCH_ALLOC
-#define BP_R16(x) (((x) + 15) & ~(size_t)15)
-static void *secp256k1_scratch_alloc(const secp256k1_callback *error_callback, secp256k1_scratch *scratch, size_t size)
-__CPROVER_requires(__CPROVER_rw_ok(scratch, sizeof(*scratch)) && scratch->alloc_size <= scratch->max_size)
-__CPROVER_requires(scratch->magic[0] == 's' && scratch->magic[1] == 'c' && scratch->magic[2] == 'r' && scratch->magic[3] == 'a' &&
-                   scratch->magic[4] == 't' && scratch->magic[5] == 'c' && scratch->magic[6] == 'h' && scratch->magic[7] == 0)
-__CPROVER_assigns(scratch->alloc_size)
-__CPROVER_ensures((size <= SIZE_MAX - 15 && BP_R16(size) <= __CPROVER_old(scratch->max_size) - __CPROVER_old(scratch->alloc_size))
-    ? (__CPROVER_is_fresh(__CPROVER_return_value, BP_R16(size)) && scratch->alloc_size == __CPROVER_old(scratch->alloc_size) + BP_R16(size))
-    : (__CPROVER_return_value == NULL && scratch->alloc_size == __CPROVER_old(scratch->alloc_size)))
 ;
 #endif
 
